@@ -68,6 +68,7 @@ func c07MidRead(r *ev.Run) {
 		grown  bool
 		commit bool // the writer ends with COMMIT (else ROLLBACK)
 		j, k   int
+		nest   bool // the callback of the first row makes a select-like call on the same handle itself
 	}
 	var jobs []job
 	for oi := range ops {
@@ -82,7 +83,10 @@ func c07MidRead(r *ev.Run) {
 						if !r.Thorough() && grown && k != j && (k-j)%3 != 1 && k != n {
 							continue // quick: a third of the (j, k) pairs on the larger file
 						}
-						jobs = append(jobs, job{oi, grown, commit, j, k})
+						jobs = append(jobs, job{oi, grown, commit, j, k, false})
+						if j >= 1 && (k-j)%3 == 0 {
+							jobs = append(jobs, job{oi, grown, commit, j, k, true})
+						}
 					}
 				}
 			}
@@ -104,11 +108,11 @@ func c07MidRead(r *ev.Run) {
 		w := <-peers
 		defer func() { peers <- w }()
 		jb := jobs[i]
-		c07MidOne(r, dir, base, w, ops[jb.op], jb.grown, jb.commit, jb.j, jb.k)
+		c07MidOne(r, dir, base, w, ops[jb.op], jb.grown, jb.commit, jb.j, jb.k, jb.nest)
 	})
 }
 
-func c07MidOne(r *ev.Run, dir string, base []byte, w *Peer, op c07MidOp, grown, commit bool, j, k int) {
+func c07MidOne(r *ev.Run, dir string, base []byte, w *Peer, op c07MidOp, grown, commit bool, j, k int, nest bool) {
 	id := atomic.AddInt64(&c07MidSeq, 1)
 	path := filepath.Join(dir, fmt.Sprintf("m%d.sqlite", id))
 	os.WriteFile(path, base, 0o644)
@@ -121,6 +125,9 @@ func c07MidOne(r *ev.Run, dir string, base []byte, w *Peer, op c07MidOp, grown, 
 	end := "COMMIT"
 	if !commit {
 		end = "ROLLBACK"
+	}
+	if nest {
+		handle += ", nested call in the first callback"
 	}
 	art := map[string]interface{}{"family": "mid-read", "operation": op.name, "handle": handle, "writer_begins_and_updates_at_row": j, "writer_ends_at_row": k, "writer_ends_with": end}
 	r.Eval(1)
@@ -219,7 +226,13 @@ func c07MidOne(r *ev.Run, dir string, base []byte, w *Peer, op c07MidOp, grown, 
 	point(0, false) // row 0: before the read starts
 	committedBeforeStart := committed
 	go func() {
+		first := true
 		err := op.run(e.H, func(row []interface{}) {
+			if nest && first {
+				// re-entrant use of the handle (refused today); the outer read's lock must survive it
+				Safely(func() { e.H.SelectRowid("s", 1, "v") })
+			}
+			first = false
 			yield <- ev1{row: row}
 			<-resume
 		})
@@ -257,6 +270,9 @@ func c07MidOne(r *ev.Run, dir string, base []byte, w *Peer, op c07MidOp, grown, 
 	kind := "fresh"
 	if grown {
 		kind = "grown"
+	}
+	if nest {
+		kind += "+nested"
 	}
 	if exclusiveSeen != "" {
 		r.Violation("C07:mid-read:writer-exclusive-during-read:"+kind, fmt.Sprintf("%s (%s handle), writer begins at row %d: the writer holds EXCLUSIVE %s while the read is still delivering rows", op.name, handle, j, exclusiveSeen), art)
